@@ -85,7 +85,7 @@ def main():
     meta["detected_by"] = [c for c, r in results.items() if r["rc"] == 1]
     if a.needs:
         meta["needs_to_manifest"] = a.needs
-    meta["round"] = 2 if a.suffix else 1
+    meta["round"] = int(a.suffix) if a.suffix.isdigit() else 1
     if a.keep and confirmed:
         d = os.path.join(VERIF, "seeded", "%s-%s%s" % (a.pid, a.which, a.suffix))
         os.makedirs(d, exist_ok=True)
